@@ -193,7 +193,7 @@ def shapes(tier, seed):
 
     mod = lambda n: importlib.import_module('sx.harness.' + n)
     every = (lambda n: n) if q else (lambda n: 1)
-    add('C01', _pick(mod('c01').shapes('quick', seed), lambda s: sum(s['lens']) <= 4, every=every(9)))
+    add('C01', _pick(mod('c01').shapes('quick', seed), lambda s: s['h'] == 'service' and sum(s['lens']) <= 4, every=every(9)))
     add('C03', _pick(mod('c03').shapes('quick', seed), lambda s: s['h'] in ('checksum', 'command') or (s['h'] == 'readbytes' and s['L'] <= 4)))
     add('C03', _pick(mod('c03').shapes('quick', seed), lambda s: s['h'] == 'fragop', every=every(3)))
     add('C04', _pick(mod('c04').shapes('quick', seed), lambda s: s['h'] == 'ops', every=every(4)))
@@ -206,7 +206,7 @@ def shapes(tier, seed):
     add('C12', _pick(mod('c12').shapes('quick', seed), lambda s: s['h'] == 'fault', every=every(3)))
     add('C12', _pick(mod('c12').shapes('quick', seed), lambda s: s['h'] != 'fault'))
     add('C13', _pick(mod('c13').shapes('quick', seed), lambda s: s['prefix'][0] in ('connect_ok', 'fail_timeout', 'pull_path', 'push_dir') or not q))
-    add('C15', _pick(mod('c15').shapes('quick', seed), lambda s: s['h'] != 'short' or s['nshort'] == 1))
+    add('C15', _pick(mod('c15').shapes('quick', seed), lambda s: s['h'] in ('sendlen', 'wfault') or (s['h'] == 'short' and (s['nshort'] == 1 or s.get('slow')))))
     # long device paths around the send-buffer boundary for list / stat / pull (path length close to maxdata)
     for L in range(4096 - 22, 4096 - 5):
         out.append({'h': 'diff', 'of': 'C16', 'inner': {'h': 'longpath', 'L': L}})
